@@ -17,6 +17,8 @@ DEEP = [
     ('sequence', 'start = S\nS = ["(", S | "a", ")"]\n'),
     # a deeply nested VALUE bound by let and mentioned inside code that is spilled into a helper function
     ('letdeep', 'start = let x = S in ' + '[' * 22 + '`x`' + ']' * 22 + '\nS = ["(", S | "a", ")"]\n'),
+    # an instance that contains all the deeper ones is passed on as an argument value (it becomes part of a memo key)
+    ('classarg', 'start = B\nclass B {\n  open: "("\n  inner: B | "a"\n  tag: Tag(inner)\n  close: ")"\n}\nTag(v) = "" >> `0`\n'),
     ('letset', 'start = let x = (S |> `lambda v_: {str(v_)}`) in ' + '[' * 22 + '`sorted(x)`' + ']' * 22 + '\nS = /[()a]+/\n'),
 ]
 
@@ -28,7 +30,7 @@ def deep_worker(case):
     n = case['n']
     mod = sourcer.Grammar(case['desc'])
     text = '(' * n + 'a' + ')' * n
-    if case['kind'] in ('class', 'sequence', 'letdeep', 'letset'):
+    if case['kind'] in ('class', 'classarg', 'sequence', 'letdeep', 'letset'):
         text = '(' * n + '(a)' + ')' * n
     rt.drain()
     rt.enable(bool(case.get('trace')))
@@ -47,7 +49,7 @@ def deep_worker(case):
                     if case['kind'] == 'letset':
                         v = 'a' if v == text else v
                 while True:
-                    if case['kind'] == 'class' and type(v).__name__ == 'B':
+                    if case['kind'] in ('class', 'classarg') and type(v).__name__ == 'B':
                         v = v.inner
                         d += 1
                     elif case['kind'] in ('sequence', 'letdeep') and isinstance(v, list) and len(v) == 3:
@@ -101,7 +103,7 @@ def run(chk):
             raise MachineryFailure('deep worker: %r' % (rec['build'],))
         chk.count(['deep', c['kind'], c['n']], True)
         chk.traces += 1
-        want = ['ok', (c['n'] + 1) if c['kind'] in ('class', 'sequence') else 0, 'a']
+        want = ['ok', (c['n'] + 1) if c['kind'] in ('class', 'classarg', 'sequence') else 0, 'a']
         if c['kind'] == 'letdeep':
             want = ['ok', 22, c['n'] + 1, 'a']
         if c['kind'] == 'letset':
